@@ -11,10 +11,10 @@ from ._vp import VPCheck
 
 FUNCS1 = {'sin': 'sin', 'cos': 'cos', 'tan': 'tan', 'asin': 'asin', 'arcsin': 'asin', 'acos': 'acos', 'arccos': 'acos', 'atan': 'atan', 'arctan': 'atan',
           'sinh': 'sinh', 'cosh': 'cosh', 'tanh': 'tanh', 'asinh': 'asinh', 'arcsinh': 'asinh', 'exp': 'exp', 'log': 'log', 'ln': 'log', 'sqrt': 'sqrt',
-          'abs': 'abs', 'gamma': 'gamma', 'erf': 'erf', 'sec': 'sec', 'csc': 'csc', 'cot': 'cot', 'acot': 'acot', 'arccot': 'acot', 'atanh': 'atanh',
+          'abs': 'abs', 'erf': 'erf', 'sec': 'sec', 'csc': 'csc', 'cot': 'cot', 'acot': 'acot', 'arccot': 'acot', 'atanh': 'atanh',
           'arctanh': 'atanh', 'acosh': 'acosh', 'arccosh': 'acosh', 'sign': 'sign', 'floor': 'floor', 'ceiling': 'ceiling', 'erfc': 'erfc',
-          'loggamma': 'loggamma', 'asec': 'asec', 'arcsec': 'asec', 'acsc': 'acsc', 'arccsc': 'acsc', 'coth': 'coth', 'sech': 'sech', 'csch': 'csch'}
-FUNCS2 = {'pow': 'pow', 'atan2': 'atan2', 'log': 'log', 'beta': 'beta', 'max': 'max', 'min': 'min'}
+          'asec': 'asec', 'arcsec': 'asec', 'acsc': 'acsc', 'arccsc': 'acsc', 'coth': 'coth', 'sech': 'sech', 'csch': 'csch'}
+FUNCS2 = {'pow': 'pow', 'atan2': 'atan2', 'log': 'log', 'max': 'max', 'min': 'min'}   # (gamma/beta of a large integer is a resource question)
 CONSTS = {'pi': K('pi'), 'E': K('E'), 'e': K('E'), 'I': K('I'), 'EulerGamma': K('EulerGamma'), 'Catalan': K('Catalan'), 'GoldenRatio': K('GoldenRatio')}
 SYMS = ['x', 'y', 'z', 'a1', '_b', 'theta', 'x_1', 'Z9']
 
@@ -207,6 +207,8 @@ class C(VPCheck):
             sd, sp = r.s(1), r.s(2)
             if sd is None or sd.st != 'ok' or sp is None or sp.st != 'exc':
                 continue
+            if not str(sp.ty).endswith('ParseError'):
+                continue      # a value-level exception (division by zero met in another association order): not a syntax rejection
             self.evaluations += 1
             key = dict(clause='rejected-valid-syntax', ty=str(sp.ty).split('::')[-1], feature=_feature(it['text']))
             ks = str(sorted(key.items()))
